@@ -304,6 +304,8 @@ func c16Run(out *verifkit.Out, p *c16Params) {
 	}
 	out.T(scLine, "ok")
 
+	stopWatch := out.Watchdog(150*time.Second, p.String())
+	defer stopWatch()
 	var (
 		runErr    error
 		scanRet   int64
